@@ -17,9 +17,10 @@ EXTENDS Distiller, Json, IOUtils
 Trace == ndJsonDeserialize(IOEnv.TRACE_FILE)
 
 VARIABLES l, run, grp, prop, entry, urlid, bytes,
+          variant, \* C20: which of the three documents of a metamorphic triple this call distils ("" otherwise)
           mem,     \* set of [k, v]: first digest seen per key in the current group
           bad
-tvars == <<vars, l, run, grp, prop, entry, urlid, bytes, mem, bad>>
+tvars == <<vars, l, run, grp, prop, entry, urlid, bytes, variant, mem, bad>>
 
 Lookup(k)  == {m.v : m \in {x \in mem : x.k = k}}
 Seen(k)    == Lookup(k) # {}
@@ -29,7 +30,7 @@ IsEvent(e) == l <= Len(Trace) /\ Trace[l].ev = e /\ l' = l + 1
 Mine       == Trace[l].run = run
 
 TInit == /\ Init /\ root = "document" /\ opts = [nil |-> TRUE, log |-> 0, url |-> FALSE, skip |-> FALSE, algo |-> "prevnext"]
-         /\ l = 1 /\ run = 0 /\ grp = 0 /\ prop = "" /\ entry = "" /\ urlid = 0 /\ bytes = FALSE /\ mem = {} /\ bad = {}
+         /\ l = 1 /\ run = 0 /\ grp = 0 /\ prop = "" /\ entry = "" /\ urlid = 0 /\ bytes = FALSE /\ variant = "" /\ mem = {} /\ bad = {}
 
 Report(names) ==
     \A name \in names : PrintT(<<"@@BAD", ToJson([run |-> run, inv |-> name, class |-> entry \o "/" \o root])>>)
@@ -38,7 +39,7 @@ TCall == /\ IsEvent("Call")
          /\ pc \in {"idle", "returned", "crashed"}
          /\ pc' = "called"
          /\ run' = Trace[l].run /\ prop' = Trace[l].prop /\ entry' = Trace[l].entry
-         /\ urlid' = Trace[l].urlid /\ bytes' = Trace[l].bytes
+         /\ urlid' = Trace[l].urlid /\ bytes' = Trace[l].bytes /\ variant' = Trace[l].variant
          /\ grp' = Trace[l].grp
          /\ mem' = IF Trace[l].grp = grp THEN mem ELSE {}
          /\ root' = Trace[l].root
@@ -54,7 +55,7 @@ TRootCheck ==
                  \cup (IF ok # HasElement(root) THEN {"C01_RootValidation"} ELSE {})
        IN  /\ pc' = IF ok THEN "rooted" ELSE "failed"
            /\ bad' = bad \cup b /\ Report(b)
-    /\ UNCHANGED <<root, opts, passes, flags, wc1, wc, nfilt, paginated, result, callerWrites, run, grp, prop, entry, urlid, bytes, mem>>
+    /\ UNCHANGED <<root, opts, passes, flags, wc1, wc, nfilt, paginated, result, callerWrites, run, grp, prop, entry, urlid, bytes, variant, mem>>
 
 TPass ==
     /\ IsEvent("Pass") /\ Mine
@@ -68,7 +69,7 @@ TPass ==
            /\ wc1' = IF n = 1 THEN Trace[l].wc ELSE wc1
            /\ pc' = "pass"
            /\ bad' = bad \cup b /\ Report(b)
-    /\ UNCHANGED <<root, opts, nfilt, paginated, result, callerWrites, run, grp, prop, entry, urlid, bytes, mem>>
+    /\ UNCHANGED <<root, opts, nfilt, paginated, result, callerWrites, run, grp, prop, entry, urlid, bytes, variant, mem>>
 
 TDocFilter ==
     /\ IsEvent("DocFilter") /\ Mine
@@ -79,7 +80,7 @@ TDocFilter ==
                 \cup (IF nfilt < 3 /\ Trace[l].name # FilterOrder[nfilt + 1] THEN {"C08_FilterOrder"} ELSE {})
        IN  /\ nfilt' = IF nfilt < 3 THEN nfilt + 1 ELSE nfilt
            /\ bad' = bad \cup b /\ Report(b)
-    /\ UNCHANGED <<pc, root, opts, passes, flags, wc1, wc, paginated, result, callerWrites, run, grp, prop, entry, urlid, bytes, mem>>
+    /\ UNCHANGED <<pc, root, opts, passes, flags, wc1, wc, paginated, result, callerWrites, run, grp, prop, entry, urlid, bytes, variant, mem>>
 
 TRendered ==
     /\ IsEvent("Rendered") /\ Mine
@@ -88,14 +89,14 @@ TRendered ==
        IN  /\ pc' = "rendered"
            /\ result' = [err |-> FALSE, wc |-> Trace[l].wc, url |-> Eff(opts).url, pagination |-> FALSE]
            /\ bad' = bad \cup b /\ Report(b)
-    /\ UNCHANGED <<root, opts, passes, flags, wc1, wc, nfilt, paginated, callerWrites, run, grp, prop, entry, urlid, bytes, mem>>
+    /\ UNCHANGED <<root, opts, passes, flags, wc1, wc, nfilt, paginated, callerWrites, run, grp, prop, entry, urlid, bytes, variant, mem>>
 
 TPaginated ==
     /\ IsEvent("Paginated") /\ Mine
     /\ LET b == IF ~CanPaginate(pc, opts) \/ paginated THEN {"C13_PaginationOnlyWhenAsked"} ELSE {}
        IN  /\ paginated' = TRUE
            /\ bad' = bad \cup b /\ Report(b)
-    /\ UNCHANGED <<pc, root, opts, passes, flags, wc1, wc, nfilt, result, callerWrites, run, grp, prop, entry, urlid, bytes, mem>>
+    /\ UNCHANGED <<pc, root, opts, passes, flags, wc1, wc, nfilt, result, callerWrites, run, grp, prop, entry, urlid, bytes, variant, mem>>
 
 \* keys of the group memory
 KExact == <<"exact", entry, opts, urlid>>
@@ -127,20 +128,30 @@ TReturn ==
                  ELSE IF ~isErr /\ Seen(KCore) /\ ValOf(KCore) # o.core THEN {"C13_OptionsDontChangeCore"}
                  ELSE IF ~isErr /\ paginated /\ Seen(KPag) /\ ValOf(KPag) # o.pag THEN {"C13_LogDoesNotChangePagination"}
                  ELSE {}
-           b  == b1 \cup b2 \cup b3
+           \* ---- C20: page P, P with the marked subtrees deleted (D), P with the markers renamed (R);
+           \* the triple is complete when R returns
+           KView(x) == <<"view", x>>
+           b4 == IF variant = "R" /\ ~isErr /\ Seen(KView("P")) /\ Seen(KView("D"))
+                 THEN LET vP == ValOf(KView("P"))  vD == ValOf(KView("D"))  vR == <<o.view, o.wc>>
+                      IN  IF vD[2] >= Threshold
+                          THEN (IF vP # vD THEN {"C20_PrunedWhenEnoughRemains"} ELSE {})
+                          ELSE (IF vP # vR THEN {"C20_MarkersIgnoredOtherwise"} ELSE {})
+                 ELSE {}
+           b  == b1 \cup b2 \cup (IF variant = "" THEN b3 ELSE {}) \cup b4
            add == {[k |-> KExact, v |-> v], [k |-> KOpts, v |-> v]}
                   \cup (IF ~isErr THEN {[k |-> KCore, v |-> o.core]} ELSE {})
                   \cup (IF ~isErr /\ paginated THEN {[k |-> KPag, v |-> o.pag]} ELSE {})
+                  \cup (IF ~isErr /\ variant # "" THEN {[k |-> <<"view", variant>>, v |-> <<o.view, o.wc>>]} ELSE {})
        IN  /\ pc' = "returned"
            /\ result' = [result EXCEPT !.err = isErr]
            /\ mem' = mem \cup {m \in add : ~Seen(m.k)}
            /\ bad' = bad \cup b /\ Report(b)
-    /\ UNCHANGED <<root, opts, passes, flags, wc1, wc, nfilt, paginated, callerWrites, run, grp, prop, entry, urlid, bytes>>
+    /\ UNCHANGED <<root, opts, passes, flags, wc1, wc, nfilt, paginated, callerWrites, run, grp, prop, entry, urlid, bytes, variant>>
 
 TCrash == /\ (IsEvent("Panic") \/ IsEvent("Hang")) /\ Mine
           /\ pc' = "crashed"
           /\ PrintT(<<"@@CRASH", ToJson([run |-> run, ev |-> Trace[l].ev, class |-> entry \o "/" \o root])>>)
-          /\ UNCHANGED <<root, opts, passes, flags, wc1, wc, nfilt, paginated, result, callerWrites, run, grp, prop, entry, urlid, bytes, mem, bad>>
+          /\ UNCHANGED <<root, opts, passes, flags, wc1, wc, nfilt, paginated, result, callerWrites, run, grp, prop, entry, urlid, bytes, variant, mem, bad>>
 
 TNext == TCall \/ TRootCheck \/ TPass \/ TDocFilter \/ TRendered \/ TPaginated \/ TReturn \/ TCrash
 TraceSpec == TInit /\ [][TNext]_tvars
